@@ -59,6 +59,14 @@ def model_checking(ctx):
         ("fallback: header map replaced refuted", "FallbackFilter", "SPECIFICATION Spec\n" + FB_CONST % (2, "FALSE") + "VIEW view\nINVARIANTS OrigHeadersKept\n", False, "OrigHeadersKept"),
     ]
 
+    if ctx.quick:
+        # the quick tier leaves the reachability ("vacuity") runs and the secondary controls to the thorough tier: the replay
+        # phases guard the same situations on the generated behaviours (late schedules, aborted sends, second rule, delay ...)
+        keep = ("mirror contract", "mirror: request bound late (code's shape) refuted", "mirror: shared stream refuted",
+                "mirror: waiting for the mirror refuted", "mock: one rule, full universe", "mock: two rules", "mock: last match wins refuted",
+                "mock: uncompiled regex (code's shape) refuted", "fallback contract", "fallback: header map replaced refuted")
+        jobs = [j for j in jobs if j[0] in keep]
+
     def one(j):
         name, mod, cfg, hold, _ = j
         return ctx.tlc_mc(mod, cfg, workers=4, timeout=1500, expect_ok=False, count=False, coverage=(name in ("mirror contract", "fallback contract")), label=name)
